@@ -410,7 +410,7 @@ func initRollingFileLogger(
 
 	// Decide the maximum level for the normal log file.
 	// If Separate is true, warning and above go to a separate .wf file.
-	normalMaxLevel := MaxLevel
+	normalMaxLevel := f.Level.MaxLevel
 	if f.Separate {
 		normalMaxLevel = WarnLevel
 	}
